@@ -651,11 +651,42 @@ func runCase(line, origin string) {
 				g.Neg(&out)
 			case "mullam":
 				g.VerifMulLambda(&out)
-			case "setxyz":
+			case "setxyz", "setxyzarg":
 				outA.SetXYZ(&g)
 			}
 		})
+		if op == "setxyzarg" { // what SetXYZ leaves in its ARGUMENT (the one call that rewrites an operand: rescaled, Z = 1)
+			res := xyzOf(&g)
+			impl = res.String()
+			if ap, on := a.ref(); on && a.inContract() {
+				prop = func() bool {
+					if !operandKept("setxyz", "Jacobian argument", a, &g, c) {
+						return false
+					}
+					// the same object converted a second time (the caller publishes it twice) and used as an operand
+					var again secp.XY
+					var sum secp.XYZ
+					if p2 := guard(func() { again.SetXYZ(&g); g.AddXY(&sum, &outA) }); p2 != "" {
+						propFail("group-operand:setxyz", fmt.Sprintf("%s: using the argument again after SetXYZ panics: %s", line, p2), c)
+						return false
+					}
+					first, second := xyOf(&outA), xyOf(&again)
+					fp, _ := first.ref()
+					sp, on2 := second.ref()
+					if first.inf != second.inf || (!first.inf && (!on2 || !fp.eq(sp) || !second.inContract())) {
+						propFail("group-operand:setxyz", fmt.Sprintf("%s: converting the same XYZ twice gives %s first and %s the second time", line, first, second), c)
+						return false
+					}
+					if !a.inf {
+						return checkPoint("setxyz-then-addxy", xyzOf(&sum), refDbl(ap), c)
+					}
+					return true
+				}
+			}
+			break
+		}
 		if op == "setxyz" {
+			defer runCase("setxyzarg "+a.String(), origin)
 			res := xyOf(&outA)
 			impl = res.String()
 			// the result is a function of the operand alone: a receiver that held something else before (the OTHER value of
@@ -690,6 +721,9 @@ func runCase(line, origin string) {
 				propFail("group-alias:dbl", line+": r.Double(r) differs from a.Double(&r)", c)
 			}
 		}
+		if a.inContract() && !operandKept(op, "operand", a, &g, c) {
+			break
+		}
 		if ap, on := a.ref(); on && (a.inContract() || (op == "negj" && a.inNegContract())) {
 			if op == "negj" {
 				r.Hit(fmt.Sprintf("negj/ymag=%d", a.y.mag()))
@@ -719,6 +753,9 @@ func runCase(line, origin string) {
 		guard(func() { g2.Neg(&g2) })
 		if r2 := xyOf(&g2); r2 != res {
 			propFail("group-alias:negxy", line+": a.Neg(&a) differs from a.Neg(&r)", c)
+		}
+		if a.inContract() && !operandKeptXY(op, "operand", a, &ga, c) {
+			break
 		}
 		if ap, on := a.ref(); on && a.inNegContract() {
 			r.Hit(fmt.Sprintf("negxy/ymag=%d", a.y.mag()))
@@ -768,6 +805,9 @@ func runCase(line, origin string) {
 		ap, on1 := a.ref()
 		bp, on2 := b.ref()
 		if on1 && on2 && a.inContract() && b.inContract() {
+			if !operandKept(op, "first operand", a, &ga, c) || !operandKept(op, "second operand", b, &gb, c) {
+				break
+			}
 			r.Hit("add3/" + relClass(ap, bp))
 			hitNoncanon(op, ap, bp, map[string]fe{"u1": rawU(a.x, b.z), "s1": rawS(a.y, b.z), "u2": rawU(b.x, a.z), "s2": rawS(b.y, a.z)})
 			prop = func() bool { return checkPoint(op, res, refAdd(ap, bp), c) }
@@ -791,6 +831,9 @@ func runCase(line, origin string) {
 		ap, on1 := a.ref()
 		bp, on2 := b.ref()
 		if on1 && on2 && a.inContract() && b.inContract() {
+			if !operandKept(op, "Jacobian operand", a, &ga, c) || !operandKeptXY(op, "affine operand", b, &gb, c) {
+				break
+			}
 			r.Hit("addxy/" + relClass(ap, bp))
 			hitNoncanon(op, ap, bp, map[string]fe{"u2": rawU(b.x, a.z), "s2": rawS(b.y, a.z)})
 			prop = func() bool { return checkPoint(op, res, refAdd(ap, bp), c) }
